@@ -488,9 +488,11 @@ func (r *lruRun) check(c *vh.Ctx, desc string) lruStats {
 	}
 	// clock sanity: the wall clock must not have stepped back relative to the monotonic clock
 	sort.Slice(r.samples, func(i, j int) bool { return r.samples[i].mono < r.samples[j].mono })
+	// (a single low sample is a thread descheduled between the two clock reads of time.Now(), not a step: a step persists)
 	clockStepped := false
+	off := func(i int) int64 { return r.samples[i].wall - r.samples[i].mono }
 	for i := 1; i < len(r.samples); i++ {
-		if (r.samples[i].wall - r.samples[i].mono) < (r.samples[i-1].wall-r.samples[i-1].mono)-50_000 {
+		if off(i) < off(i-1)-50_000 && (i+1 >= len(r.samples) || off(i+1) < off(i-1)-50_000) {
 			clockStepped = true
 		}
 	}
@@ -813,9 +815,9 @@ func runInterleavings(c *vh.Ctx) {
 		}
 		c.Case(fmt.Sprintf("lru/%d", i), func() {
 			rng := c.Rng("lru", i)
-			ops := 20000 // per goroutine; the runs beyond the quick prefix are three times as long
+			ops := 20000 // per goroutine; the runs beyond the quick prefix are a little longer (measured: 60000 made thorough take 38 min)
 			if i >= 20 {
-				ops = 60000
+				ops = 24000
 			}
 			p := lruParamsFor(i, rng, ops)
 			desc := fmt.Sprintf("cache run %d %+v", i, p)
